@@ -29,6 +29,16 @@ def no_finally(mod_ast):
     return blk(mod_ast)
 
 
+F8_TAGS = {"class": "comprehension-extra-if-clauses"}
+
+
+def surplus_ifs(body, dead):
+    """Finding F8: the `if` clauses after the first one of every `for` clause of the statement-level comprehensions of one
+    function (nested defs are functions of their own) that are not in the code pyscn itself reports dead.
+    Same quantity as Cfg/FlowMcCabe.v surplus_ifs (theorem C03_mccabe_up_to_extra_ifs: model + surplus = spec)."""
+    return sum(max(0, n - 1) for st in pygen.own_statements(body) if st[0] == 'comp' and st[1] not in dead for n in st[2])
+
+
 def risk_of(c, lo, med):
     return "low" if c <= lo else "medium" if c <= med else "high"
 
@@ -61,6 +71,8 @@ def main(tier):
     fb3, _ = pygen.enum_frame_bodies(3, rng, None if thorough else 700)
     mods += pygen.modules_from_bodies(fb2 + fb3[len(fb2) if thorough else 0:])
     mods += pygen.modules_from_bodies(pygen.arm_chain_bodies())
+    # comprehension clauses: every combination of 0..3 if clauses on one and two for clauses, live, nested and dead
+    mods += pygen.modules_from_bodies(pygen.comp_clause_bodies())
     # async defs, methods and decorated definitions (the files of this check are not executed): every third module
     for m in mods[::3]:
         if not m.get("dup"):
@@ -68,7 +80,8 @@ def main(tier):
     d = lib.fresh_dir("c03")
     cc.write_modules(mods, d)
     stats = dict(functions=0, c03_functions=0, complexity_hist={}, risk_checks=0, dead_decisions=0, extra_functions=0,
-                 extra_complexity_differs=0)
+                 extra_complexity_differs=0, decided_equal_to_spec=0, comp_clauses_by_ifs={}, functions_with_live_multi_if_clause=0,
+                 f8_functions=0, f8_surplus_hist={})
     nviol = tie = 0
     try:
         model_ok = cc.coq_analyse(mods, "C03") and cc.coq_build(mods, "C03")
@@ -144,16 +157,35 @@ def main(tier):
                     # the property is relative to the code pyscn itself reports dead: decided below against pyscn's own dead set
                     # (which statements are dead is the business of C01/C02, not a broken tie of C03)
                     stats["dead_set_differs_from_model"] = stats.get("dead_set_differs_from_model", 0) + 1
-                    recheck.append((m, name, k0, sorted(impl_dead), c))
+                    recheck.append((m, name, k0, sorted(impl_dead), c, surplus_ifs(s[3], impl_dead)))
                     continue
-                stats["dead_decisions"] += rec["cx"] != rec["mccabe"] or 0
-                if c != rec["mccabe"]:
+                sur = surplus_ifs(s[3], impl_dead)
+                stats["dead_decisions"] += rec["cx"] + sur != rec["mccabe"] or 0
+                stats["functions_with_live_multi_if_clause"] += sur > 0
+                for st_ in pygen.own_statements(s[3]):
+                    if st_[0] == 'comp':
+                        for n_ in st_[2]:
+                            stats["comp_clauses_by_ifs"][str(n_)] = stats["comp_clauses_by_ifs"].get(str(n_), 0) + 1
+                if c == rec["mccabe"]:
+                    stats["decided_equal_to_spec"] += 1
+                kf = ck.match_known(F8_TAGS) if (c != rec["mccabe"] and sur > 0 and c + sur == rec["mccabe"]) else None
+                if kf is not None:
+                    # finding F8: the function has a live comprehension whose for clause carries two or more ifs and pyscn's value
+                    # is short of the property's by exactly those extra if clauses (nothing else is excused)
+                    ck.known_finding(kf)
+                    stats["f8_functions"] += 1
+                    stats["f8_surplus_hist"][str(sur)] = stats["f8_surplus_hist"].get(str(sur), 0) + 1
+                    if c != rec["cx"]:
+                        tie += 1
+                        ck.broken_ties.append("model tie: complexity of %s: pyscn %d, Flow.v %d" % (name, c, rec["cx"]))
+                elif c != rec["mccabe"]:
                     if nviol < 3:
                         nviol += 1
                         ck.violation("complexity of %s is %d but one plus its live decision points (if/elif tests, loops, except handlers, "
                                      "comprehension clauses) is %d" % (name, c, rec["mccabe"]),
                                      {"kind": "mccabe", "file": m["path"], "source": m["lines"], "function": name, "impl": c,
-                                      "spec_mccabe": rec["mccabe"], "model": rec["cx"], "dead_statements": sorted(model_dead)})
+                                      "spec_mccabe": rec["mccabe"], "model": rec["cx"], "dead_statements": sorted(model_dead),
+                                      "surplus_if_clauses_of_live_comprehensions(F8)": sur})
                 elif c != rec["cx"]:
                     tie += 1
                     ck.broken_ties.append("model tie: complexity of %s: pyscn %d, Flow.v %d" % (name, c, rec["cx"]))
@@ -162,17 +194,23 @@ def main(tier):
     if recheck:
         try:
             items = ["(mccabe_at %s %d %s)" % (pygen.coq_block(m["ast"]), k0, lib.clist(["%d" % k for k in dead]))
-                     for (m, name, k0, dead, c) in recheck[:40]]
+                     for (m, name, k0, dead, c, sur) in recheck[:40]]
             out = lib.coq_eval("C03_recheck", cc.REQ, "Eval vm_compute in %s.\n" % lib.clist(items))
             vals = lib.parse_coq_values(out)[0]
             if len(recheck) > 40:
                 ck.broken_ties.append("model tie: dead statements differ from Flow.v in %d functions; only the first 40 were re-decided against pyscn's own dead set" % len(recheck))
-            for (m, name, k0, dead, c), v in zip(recheck, vals):
-                if v != c and nviol < 3:
+            for (m, name, k0, dead, c, sur), v in zip(recheck, vals):
+                kf = ck.match_known(F8_TAGS) if (v != c and sur > 0 and c + sur == v) else None
+                if kf is not None:
+                    ck.known_finding(kf)
+                    stats["f8_functions"] += 1
+                    stats["f8_surplus_hist"][str(sur)] = stats["f8_surplus_hist"].get(str(sur), 0) + 1
+                elif v != c and nviol < 3:
                     nviol += 1
                     ck.violation("complexity of %s is %d but one plus the decision points outside the code pyscn itself reports dead is %d"
                                  % (name, c, v), {"kind": "mccabe", "file": m["path"], "source": m["lines"], "function": name,
-                                                  "impl": c, "spec_mccabe_with_impl_dead_set": v, "impl_dead_statements": dead})
+                                                  "impl": c, "spec_mccabe_with_impl_dead_set": v, "impl_dead_statements": dead,
+                                                  "surplus_if_clauses_of_live_comprehensions(F8)": sur})
         except Exception as e:
             ck.broken_ties.append("recheck evaluation failed: " + str(e)[-500:])
     if stats.get("functions_without_row", 0) > max(3, stats["functions"] // 2):
@@ -182,8 +220,10 @@ def main(tier):
         "evaluations": stats["c03_functions"] + stats["risk_checks"],
         "distinct_nontrivial": stats["c03_functions"],
         "rule": "functions generated from the property's construct list (if/elif/else, for/while with else, break/continue/return, "
-                "try/except/else, statement-level comprehensions, nested defs/classes) at nesting <= 5; complexity compared with the "
-                "Coq spec mccabe; risk level compared for every function under each threshold pair; "
+                "try/except/else, statement-level comprehensions with 0..3 if clauses per for clause, nested defs/classes) at nesting <= 5; "
+                "complexity compared with the Coq spec mccabe (every for and every if clause of a comprehension counts one); a function whose "
+                "value is short by exactly the second and further if clauses of its live comprehensions is finding F8 (f8_functions), any "
+                "other difference is a violation; risk level compared for every function under each threshold pair; "
                 "functions using with/match/raise/finally are compared with the model only and counted in extra_*",
         "input_distribution": stats, "thresholds": THRESHOLDS if thorough else THRESHOLDS[:4],
         "disagreements_checked": nviol + tie,
